@@ -64,6 +64,9 @@ func c03PreMsg(bs string, kind byte, seq int) []byte {
 	case 'E':
 		f = append(f, groupEndBody...)
 	case 'B': // an application message without any body field
+	case 'R': // a message the application relayed: it went out with PossDupFlag=Y and the OrigSendingTime of its first sender
+		f = append(f[:5:5], fixscan.Field{43, "Y"}, fixscan.Field{122, fixscan.Stamp(time.Now().Add(-time.Hour))}, f[5])
+		f = append(f, fixscan.Field{11, "ID" + strconv.Itoa(seq)}, fixscan.Field{55, "X"}, fixscan.Field{58, "a=b"})
 	case 'X':
 		f = append(f, nestedEndBody...)
 	case 'Y':
@@ -416,10 +419,12 @@ func runC03(c *core.Ctx) {
 			hists = append(hists, strings.TrimSpace(string(a)+string(b)), strings.TrimSpace(string(b)+string(a)))
 		}
 	}
+	// pre-stored only: a relayed message (stored with PossDupFlag and somebody else's OrigSendingTime)
+	hists = append(hists, "R", "RP", "PR", "HR")
 	for _, cfg := range c03Configs(c.Quick()) {
 		for _, pre := range []bool{false, true} {
 			for _, h := range hists {
-				if !pre && strings.ContainsAny(h, "XYZ") {
+				if !pre && strings.ContainsAny(h, "XYZR") {
 					continue // the API writes body fields in tag order: these layouts only exist as stored bytes
 				}
 				// positions of application messages
@@ -452,6 +457,11 @@ func runC03(c *core.Ctx) {
 			}
 		}
 	}
+	// numbering past 999999: up to FIX.4.2 that EndSeqNo still means "to the end", from FIX.4.3 on it is a number
+	// below the first one asked for
+	for _, bs := range []string{"FIX.4.1", "FIX.4.2", "FIX.4.4"} {
+		groups = append(groups, group{sessmc.Config{BeginString: bs}, true, "PHP", nil, 1000000})
+	}
 	c.Set("history_groups", len(groups))
 	c03Long(c)
 	var idx int64 = -1
@@ -475,7 +485,11 @@ func runC03(c *core.Ctx) {
 				}
 				L := len(hist)
 				n := 0
-				for b := 1; b <= L+2; b++ {
+				b0 := 1
+				if g.jump > 100 {
+					b0 = g.jump // the first request starts at the last number that was never used
+				}
+				for b := b0; b <= L+2; b++ {
 					es := []int{0, 999999}
 					for e := 1; e <= L+2; e++ {
 						es = append(es, e)
@@ -519,7 +533,6 @@ func runC03(c *core.Ctx) {
 		c.Cap("not all history groups evaluated")
 	}
 }
-
 
 // c03Long: a stored history of 1005 application messages (memory, file and SQL store) and requests whose range
 // spans, starts at, ends at and lies beyond the thousandth message (stores that read a long range in portions).
